@@ -18,9 +18,9 @@ import EntraitProofs.C10
 namespace Entrait.C05
 open Entrait
 
-theorem count_entraitAttr (opts : Opts) (ind mode fns) (cty : Ty) (subAttrs : List Attr) :
+theorem count_entraitAttr (opts : Opts) (ind mode fns) (hmode : mode ≠ .rawTrait) (cty : Ty) (subAttrs : List Attr) :
     (unimockAttrOf opts ind mode fns ++ entraitAttrOf (.concrete cty) ++ mockallAttrOf opts ++
-      reappliedSubs subAttrs).count entraitForTraitAttr = 1 := by
+      reappliedSubs mode subAttrs).count entraitForTraitAttr = 1 := by
   have h1 : (unimockAttrOf opts ind mode fns).count entraitForTraitAttr = 0 := by
     rw [List.count_eq_zero]
     intro hmem
@@ -45,9 +45,11 @@ theorem count_entraitAttr (opts : Opts) (ind mode fns) (cty : Ty) (subAttrs : Li
       rw [C10.mockKind_gated_mockall, C10.mockKind_entraitAttr] at this
       simp at this
     · simp at hmem
-  have h3 : (reappliedSubs subAttrs).count entraitForTraitAttr = 0 := by
+  have h3 : (reappliedSubs mode subAttrs).count entraitForTraitAttr = 0 := by
     rw [List.count_eq_zero]
     intro hmem
+    have hb : (mode == InputMode.rawTrait) = false := by cases mode <;> simp_all
+    simp only [reappliedSubs, hb, Bool.false_eq_true, if_false] at hmem
     have := (List.mem_filter.mp hmem).2
     revert this
     decide
@@ -82,8 +84,8 @@ theorem T_C05 (v : Variant) (attr : Toks) (item : Item) (out : Out)
           simp only [hin, Out.view, View.items, Out.inside, Out.after, List.nil_append, mainTrait?, mainImpl?, traitsOf,
             implsOf, List.head?_cons, List.getLast?_singleton]
           rw [him]
-          simp only [genTraitDef, count_entraitAttr, implSelfTy, implParams, List.nil_append, implWherePreds,
-            beq_self_eq_true, Bool.true_and, Bool.and_eq_true]
+          simp only [genTraitDef, count_entraitAttr _ _ _ _ (by decide : InputMode.singleFn ≠ .rawTrait), implSelfTy,
+            implParams, List.nil_append, implWherePreds, beq_self_eq_true, Bool.true_and, Bool.and_eq_true]
           -- lifted parameters and predicates come from `deps_with_generics`
           have htg : tg.params = liftedParams false f.sig ∧ ∀ q ∈ tg.preds, q ∈ f.sig.generics.preds := by
             unfold analyzeFnDeps at hd
@@ -163,7 +165,7 @@ theorem nestedAttr_parse :
 /-- stage 2 never mocks: an explicit `false` beats the fallback of every macro variant -/
 theorem T_C05_nested_no_mock (v : Variant) (t : TraitItem) (out : Out)
     (h : expand v [i "unimock", p '=', i "false", p ',', i "mockall", p '=', i "false"] (.trait t) = .ok out) :
-    ∀ g ∈ traitsOf out.view.items, mockKinds g = (t.attrs.filter (fun a => a.subKind == .asyncTrait || a.subKind == .automock)).filterMap Attr.mockKind := by
+    ∀ g ∈ traitsOf out.view.items, mockKinds g = t.attrs.filterMap Attr.mockKind := by
   have h' : expandTrait v [i "unimock", p '=', i "false", p ',', i "mockall", p '=', i "false"] t = .ok out := h
   obtain ⟨a0, fns, delegation, h1, _, h3, rfl⟩ := expandTrait_ok h'
   rw [nestedAttr_parse] at h1
